@@ -2,6 +2,7 @@ import Ark.Proofs.ArchIndex
 import Ark.Proofs.Rejects
 import Ark.Proofs.GenBridge.BookArchetype
 import Ark.Props.C04World
+import Ark.Props.C04Hist
 
 namespace Ark.Props.C04
 open Ark
@@ -131,5 +132,68 @@ theorem world_good_setRelations : type_of% @Ark.Props.C04World.good_setRelations
 
 /-- … by `Add` with relations -/
 theorem world_good_add : type_of% @Ark.Props.C04World.good_add := @Ark.Props.C04World.good_add
+
+
+/-! ### Over histories: the refinement machine WITH relation components (Props/C04Hist) -/
+
+/-- the world invariant `TInv` holds after every history (fewer than 2^16 operations) of register / new / add / remove / set-relations / set / remove-entity WITH relation components, through any access path -/
+theorem rel_reach_tinv : type_of% @Ark.Props.C04Hist.reach_tinv := @Ark.Props.C04Hist.reach_tinv
+
+/-- **refinement with relations**: every specification entry is realised — the entity is alive, its component set, every value AND every relation target are the specified ones -/
+theorem rel_refines : type_of% @Ark.Props.C04Hist.refines := @Ark.Props.C04Hist.refines
+
+/-- a component that is not specified is absent -/
+theorem rel_refines_absent : type_of% @Ark.Props.C04Hist.refines_absent := @Ark.Props.C04Hist.refines_absent
+
+/-- a handle returned by some creation is alive iff the specification has an entry for it -/
+theorem rel_alive_iff_specified : type_of% @Ark.Props.C04Hist.alive_iff_specified := @Ark.Props.C04Hist.alive_iff_specified
+
+/-- **C04**: every specified relation target is the zero entity or itself has an entry (is alive) -/
+theorem rel_targets_zero_or_alive : type_of% @Ark.Props.C04Hist.targets_zero_or_alive := @Ark.Props.C04Hist.targets_zero_or_alive
+
+/-- … read off the model world -/
+theorem rel_targets_zero_or_alive_world : type_of% @Ark.Props.C04Hist.targets_zero_or_alive_world := @Ark.Props.C04Hist.targets_zero_or_alive_world
+
+/-- a call whose specification-level precondition fails (dead handle, component present/absent, dead target, …) panics with the world and the machine state unchanged -/
+theorem rel_rejected : type_of% @Ark.Props.C04Hist.rejected := @Ark.Props.C04Hist.rejected
+
+/-- every other expressible call succeeds — totality of all seven operations on every access path -/
+theorem rel_accepted : type_of% @Ark.Props.C04Hist.accepted := @Ark.Props.C04Hist.accepted
+
+/-- a dead target is never accepted by `NewEntity` (any path) -/
+theorem rel_dead_target_not_accepted_new : type_of% @Ark.Props.C04Hist.dead_target_not_accepted_new := @Ark.Props.C04Hist.dead_target_not_accepted_new
+
+/-- … by `Add` -/
+theorem rel_dead_target_not_accepted_add : type_of% @Ark.Props.C04Hist.dead_target_not_accepted_add := @Ark.Props.C04Hist.dead_target_not_accepted_add
+
+/-- … by `SetRelations` -/
+theorem rel_dead_target_not_accepted_setrel : type_of% @Ark.Props.C04Hist.dead_target_not_accepted_setrel := @Ark.Props.C04Hist.dead_target_not_accepted_setrel
+
+/-- after `NewEntity(ids, vals, rels)` the targets are the ones given -/
+theorem rel_new_assigns : type_of% @Ark.Props.C04Hist.new_assigns := @Ark.Props.C04Hist.new_assigns
+
+/-- after `Add` with relations likewise; old targets, components and values are kept -/
+theorem rel_add_assigns : type_of% @Ark.Props.C04Hist.add_assigns := @Ark.Props.C04Hist.add_assigns
+
+/-- after `SetRelations` the named targets are the ones given, the others unchanged -/
+theorem rel_setrel_assigns : type_of% @Ark.Props.C04Hist.setrel_assigns := @Ark.Props.C04Hist.setrel_assigns
+
+/-- a target stays the one last assigned while operations on other entities happen … -/
+theorem rel_target_stays : type_of% @Ark.Props.C04Hist.target_stays := @Ark.Props.C04Hist.target_stays
+
+/-- … until that target is removed: then it reads zero, and the entity keeps all its components and values -/
+theorem rel_del_detaches : type_of% @Ark.Props.C04Hist.del_detaches := @Ark.Props.C04Hist.del_detaches
+
+/-- `Remove(e, ids)` with relations among `ids`: those components and their targets are gone, the rest is kept -/
+theorem rel_rem_effect : type_of% @Ark.Props.C04Hist.rem_effect := @Ark.Props.C04Hist.rem_effect
+
+/-- an operation on one entity changes no other entity's components, values or targets -/
+theorem rel_frame_world : type_of% @Ark.Props.C04Hist.frame_world := @Ark.Props.C04Hist.frame_world
+
+/-- `RemoveEntity(e)` changes, of the other entities, exactly the targets that were `e` -/
+theorem rel_frame_del : type_of% @Ark.Props.C04Hist.frame_del := @Ark.Props.C04Hist.frame_del
+
+/-- the state reached does not depend on the access path of each operation -/
+theorem rel_any_access_path : type_of% @Ark.Props.C04Hist.any_access_path := @Ark.Props.C04Hist.any_access_path
 
 end Ark.Props.C04
